@@ -11,9 +11,9 @@ EXPLANATION = ("Structural rules over the typed HIR of the ID allocator and of e
                "N2 candidate starts at the stored counter, is reset to 1 exactly when it equals i32::MAX and is "
                "otherwise incremented by 1, table initialised to (0, empty); N3 the search loop is left only when "
                "the freshly updated candidate is not in the in-use set; N4 the same candidate is stored, inserted and "
-               "returned; N5 who-may-touch: counter writes and set inserts only in the allocator, allocator called only "
+               "returned; N5 who-may-touch: counter writes (through any alias of the place: `guard.0`, a destructured or re-borrowed guard) and set inserts only in the allocator - a store in the driver loop is accepted only when its arm's paths show it writes back the counter's own current value -, allocator called only "
                "from the operation issue point whose request tuple carries that value, set removals only in the driver "
-               "loop; N6 every release in the driver is accompanied by un-routing of the same ID (or is the Abandon "
+               "loop; N6 on every enumerated path of a select! arm a release comes with the un-routing of the same ID (or is the Abandon "
                "request's own, never-answered ID). Not decided: the arithmetic of 2^31 wrap-around as a runtime fact "
                "beyond this shape; scheduler interleavings (the single Mutex critical section is the argument).")
 TRUSTED = ['std::sync::Mutex mutual exclusion', 'std HashSet semantics']
